@@ -175,8 +175,15 @@ LabSrv(proto, q, e) ==
                  hops |-> [k \in 1..2 |-> IF k = 2 THEN [ttl |-> k, addr |-> DestAddr(1), dest |-> TRUE] ELSE [ttl |-> k, addr |-> RouterAddr(k), dest |-> FALSE]]]]
 C15Lab == { LabSrv("udp", 2, 63), LabSrv("icmp", 1, 2) }
 
+\* C12 on the real capture path (AF_PACKET socket + attached classic-BPF program + drain): with the filters the code installs the
+\* answers of every family still arrive - ICMPv4, ICMPv6, the TCP tuple filter with its ICMP branch, the SYN-ACK filter of the handshake
+Re(x, i) == [x EXCEPT !.id = "C12/lab/" \o ToString(i), !.label = "real_capture_path/" \o @]
+C12Lab == { Re(Lab6("icmp", 1, {}, FALSE), 1), Re(Lab6("udp", 2, {}, FALSE), 2), Re(Lab(<<"udp", "">>, 2, "closed", {}, 1, 1, FALSE), 3),
+            Re(Lab(<<"icmp", "">>, 1, "closed", {}, 1, 1, FALSE), 4), Re(Lab(<<"tcp", "syn">>, 2, "open", {}, 1, 1, FALSE), 5),
+            Re(Lab(<<"tcp", "sack">>, 2, "open", {}, 1, 1, FALSE), 6) }
+
 LabGen == IF "VT_GEN" \in DOMAIN IOEnv THEN IOEnv.VT_GEN ELSE "C13"
-LabCases == IF LabGen = "C08" THEN C08Lab ELSE IF LabGen = "C15" THEN C15Lab ELSE IF LabGen = "C17" THEN C17Lab ELSE All \cup Extra \cup CliAll \cup MoreC13
+LabCases == IF LabGen = "C08" THEN C08Lab ELSE IF LabGen = "C12" THEN C12Lab ELSE IF LabGen = "C15" THEN C15Lab ELSE IF LabGen = "C17" THEN C17Lab ELSE All \cup Extra \cup CliAll \cup MoreC13
 ASSUME ndJsonSerialize(IOEnv.VT_OUT, SetToSeq(LabCases)) /\ PrintT(<<"GEN", LabGen, Cardinality(LabCases), Cardinality(LabCases)>>)
 VARIABLE x
 Init == x = 0
